@@ -1334,8 +1334,53 @@ var c09Corpus = [][]string{
 	// maps
 	{"mlit a=i1,b=i2", "put h0 c i3", "put h0 c i4", "mlit d=i4", "mrg h1 h3", "mrg h2 h3", "mlit a=i5,x=i9", "rpl h0 h6", "mev h4", "mmap add:1 h0", "macc a h4", "mcmb h0 h0", "obs"},
 	{"const 7", "put h0 c i3", "const 7", "put h2 c i4", "mev h0", "obs"},
+	// a replaced map knows only the keys of the original (the model once looked into the replacement first)
+	{"mlit -", "mlit a=i1", "rpl h0 h1", "mrg h2 h1", "put h2 a i5", "mlit a=i2,b=i3", "mlit b=i4,c=i5", "rpl h5 h6", "mlit c=i6", "mrg h7 h8", "obs"},
 	// a ListMap with spare capacity (accept): two derivations from it must not share the spare cell
 	{"mlit a=i1,b=i2,c=i3", "macc a h0", "mlit d=i4", "mlit x=i5", "mrg h1 h2", "mrg h1 h3", "put h1 k i6", "put h1 l i7", "mmap add:1 h1", "obs"},
+}
+
+// c09ForkSweep: every capacity state of a parent (len = cap, spare capacity not yet used, spare capacity already
+// used, lazily produced, constant) x every way to derive a value from it x appends to the derived value(s) and
+// to the parent in both orders. Each operation creates the handle with its own index.
+func c09ForkSweep() [][]string {
+	bases := [][]string{
+		{"lit i1,i2,i3"},
+		{"lit i1,i2", "app h0 i3"},
+		{"lit i1,i2", "app h0 i3", "app h1 i4"},
+		{"lit i1,i2", "app h0 i3", "app h0 i4"},
+		{"num 4", "eval h0"},
+		{"num 3", "map mul:2 h0"},
+		{"num 5", "acc ge:2 h0"},
+		{"num 5", "eval h0", "top 3 h1"},
+		{"const 0"}, {"const 2"}, {"const 3"},
+	}
+	derive := []string{"top 2 @", "top 1 @", "top 9 @", "skip 1 @", "skip 0 @", "skip 2 @", "map id @", "eval @", "alias @", "rev @", "ord @", "cat @ @", "acc all @", "set @ 0 i7", "app @ i6"}
+	var res [][]string
+	for _, b := range bases {
+		B := "h" + strconv.Itoa(len(b)-1)
+		for _, d1 := range derive {
+			for _, d2 := range derive {
+				if d2 != d1 && d2 != "app @ i6" && d2 != "skip 1 @" && d2 != "top 2 @" {
+					continue
+				}
+				ops := append([]string(nil), b...)
+				ops = append(ops, strings.ReplaceAll(d1, "@", B))
+				D1 := "h" + strconv.Itoa(len(ops)-1)
+				ops = append(ops, strings.ReplaceAll(d2, "@", B))
+				D2 := "h" + strconv.Itoa(len(ops)-1)
+				for _, order := range [][]string{{D1, D2, B}, {B, D1, D2}, {D2, B, D1}, {D1, B, D1}} {
+					h := append([]string(nil), ops...)
+					for i, t := range order {
+						h = append(h, "app "+t+" i"+strconv.Itoa(20+i))
+					}
+					h = append(h, "obs")
+					res = append(res, h)
+				}
+			}
+		}
+	}
+	return res
 }
 
 func c09Nontrivial(r *c09Run) bool {
@@ -1374,7 +1419,7 @@ func c09Nontrivial(r *c09Run) bool {
 
 func runC09(c *Ctx) {
 	log.SetOutput(io.Discard) // recovered panics of generated functions are logged by the library
-	c.rule = "histories of list/map operations (34 kinds incl. append, set, reverse, order*, +, map, accept, top, skip, eval, first, l[i], size, movingWindow*, combineN lazy/stored, groupBy*, host append on ToSlice, constants evaluated repeatedly; put, +, replace, eval, map, accept, combine, get on maps) over a pool of handles, every handle observed after every step (deep canonical walk, string(); at obs steps size() and = against a copy of its first observation) on the real code, and compared with the Lean model's abs of every handle after every step; non-trivial = distinct history with at least one branch (two derivations from the same handle) and one materialising operation"
+	c.rule = "histories of list/map operations (34 kinds incl. append, set, reverse, order*, +, map, accept, top, skip, eval, first, l[i], size, movingWindow*, combineN lazy/stored, groupBy*, host append on ToSlice, constants evaluated repeatedly; put, +, replace, eval, map, accept, combine, get on maps) over a pool of handles, plus a fork sweep (11 parent capacity states x 15 derivations x 2..4 sibling derivations x 4 append orders), every handle observed after every step (deep canonical walk, string(); at obs steps size() and = against a copy of its first observation) on the real code, and compared with the Lean model's abs of every handle after every step; non-trivial = distinct history with at least one branch (two derivations from the same handle) and one materialising operation"
 	c.assume = append(c.assume,
 		"closures in generated programs come from a fixed pool of pure functions; ints stay far below 2^63",
 		"VerifState (hook) is used only for the capacity-state histogram, never for a verdict",
@@ -1509,6 +1554,18 @@ func runC09(c *Ctx) {
 				}
 			}
 			finish(r, "corpus")
+		}
+		for _, ops := range c09ForkSweep() {
+			r := c09NewRun(c)
+			for _, op := range ops {
+				if !r.exec(op) {
+					fatal("C09 fork sweep: operation %q is not executable in %v", op, ops)
+				}
+				if r.viol != nil {
+					break
+				}
+			}
+			finish(r, "fork-sweep")
 		}
 	}
 
